@@ -422,6 +422,8 @@ func poolsGlobFn(name string) valid.CommonValidFn {
 	}
 }
 
+const poolsUserPanic = "user function panics (recovered by the caller)"
+
 var poolsGlobOnce sync.Once
 var poolsArrLen int64
 
@@ -523,6 +525,7 @@ type poolsOutcome struct {
 	rmSame    bool
 	api       string
 	panicMsg  string
+	noKeep    bool // nothing of this call is re-read later (a user function panicked and the caller recovered)
 	ty        string
 	ptr       uintptr // the pooled validator, when the builder API exposed it
 	kept      *poolsKept
@@ -579,12 +582,24 @@ func (r *poolsRunner) run(c int, rec poolsDescRec, clone int) (o poolsOutcome) {
 	o.inputSame, o.rmSame = true, true
 	defer func() {
 		if p := recover(); p != nil {
+			if msg := fmt.Sprint(p); msg == poolsUserPanic {
+				// a per-call function of THIS call panicked and the caller recovers: the call has no result the contract
+				// speaks about (its descriptor is free); what matters is that later calls are not affected
+				o.clauses = []poolsClause{{"", "other", "recovered: " + msg, ""}}
+				o.inputSame, o.rmSame = true, true
+				o.noKeep = true
+				return
+			}
 			o.panicMsg = fmt.Sprint(p)
 			o.clauses = []poolsClause{}
 		}
 	}()
 	fnMap := valid.Name2FnMap{}
 	for _, n := range d.Fns {
+		if n == "p_panic" {
+			fnMap[n] = func(errBuf *strings.Builder, validName, objName, fieldName string, tv reflect.Value) { panic(poolsUserPanic) }
+			continue
+		}
 		fnMap[n] = poolsTokFn(n, owner, k)
 	}
 	var err error
@@ -993,6 +1008,9 @@ func poolsReplay(args []string) error {
 			panics++
 			keep = false
 		}
+		if o.noKeep {
+			keep = false
+		}
 		out.put(poolsRetEvent(c, rec, o, 0, keep, rc))
 		if keep {
 			cur = append(cur, o.kept)
@@ -1203,10 +1221,10 @@ func poolsConc(args []string) error {
 					}
 					o := r.run(c, rec, cl)
 					atomic.AddInt32(&inflight, -1)
-					re := poolsRetEvent(c, rec, o, g+1, o.panicMsg == "", false)
+					re := poolsRetEvent(c, rec, o, g+1, o.panicMsg == "" && !o.noKeep, false)
 					re.stamp = atomic.AddInt64(&stamp, 1)
 					evs[g] = append(evs[g], ce, re)
-					if o.panicMsg == "" {
+					if o.panicMsg == "" && !o.noKeep {
 						cur = append(cur, o.kept)
 					}
 					if len(cur) >= gen {
